@@ -328,7 +328,7 @@ def run_ob(ctx, ob):
     acquire_mem(ctx, ob.mem_gb)
     try:
         cmd = ["/usr/bin/time", "-f", "VTIME %e %M", "-o", r.binary + ".time"] + cbmc_cmd(ob, r.binary)
-        rc, out, err, to, wall = run(cmd, timeout=ob.timeout, mem_gb=ob.mem_gb * 1.5 + 2)
+        rc, out, err, to, wall = run(cmd, timeout=ob.timeout, mem_gb=ob.mem_gb * 2 + 4)
     finally:
         release_mem(ctx, ob.mem_gb)
     r.wall = time.time() - t0
@@ -377,7 +377,7 @@ def run_ob(ctx, ob):
 def get_trace_inputs(ctx, ob, binary, prop):
     """re-run with --trace for one property; returns list of vin values or None"""
     cmd = cbmc_cmd(ob, binary, ["--trace", "--property", prop, "--stop-on-fail"])
-    rc, out, err, to, wall = run(cmd, timeout=ob.timeout * 2, mem_gb=ob.mem_gb * 1.5 + 2)
+    rc, out, err, to, wall = run(cmd, timeout=ob.timeout * 2, mem_gb=ob.mem_gb * 2 + 4)
     try:
         doc = json.loads(out)
     except Exception:
@@ -554,8 +554,11 @@ def execute(ctx, obs, native_steps=(), assumptions=(), trusted=(), extra_cov=Non
         ctx.say(f"VIOLATION property={ctx.prop} replay={rpath}")
         ctx.say(f"  native step: {info}")
     nviol = len(violations) + len(native_viol)
-    discharged = [r for r in results if r.verdict == "discharged"]
-    with_known = [r for r in results if r.verdict == "violated"]
+    ub_obs = {r.ob.id for r, _, _ in ub_only}
+    hard_obs = {r.ob.id for r, *_ in violations} | {r.ob.id for r, *_ in model_err} | {obid for (_, obid, _) in known_hit.values()}
+    # a query whose only failed checks are UB-ONLY (not confirmed natively) still discharges its property assertions
+    discharged = [r for r in results if r.verdict == "discharged" or (r.verdict == "violated" and r.ob.id in ub_obs and r.ob.id not in hard_obs and r.witness)]
+    with_known = [r for r in results if r.verdict == "violated" and r not in discharged]
     cov = {
         "evaluations": len(results),
         "distinct_nontrivial": len({r.ob.id for r in results if r.witness}),
